@@ -32,7 +32,7 @@ CFG = {"cmds": ["empty"], "oracles": ("effects",), "violations": ("effects",), "
 LEVEL_NOTE = ("theorems: with --dry-run, and in interactive mode with a reply not beginning with y/Y (or end of input), "
               "trash-empty issues no file-system call, for every world, DAYS and oracle; the reply test is 'first character "
               "y or Y'. 'dry-run prints exactly what the real run removes' is checked differentially on copies of each world")
-RULE = ("seeded trash worlds x {--dry-run, -i with 13 replies incl. EOF} x DAYS x --trash-dir x -v; oracle: every slot kept "
+RULE = ("seeded trash worlds (a quarter with a stale directorysizes cache in the trash directories) x {--dry-run, -i with 13 replies incl. EOF} x DAYS x --trash-dir x -v; oracle: every slot kept "
         "and everything outside unchanged; exhaustive function-level check of parse_reply over all strings of length <= 2 "
         "of printable ASCII; differential: printed paths of a dry run vs paths removed by the real run on a copy")
 
